@@ -23,7 +23,7 @@ LEVEL = "model_checking"
 MODEL = dict(minsub=128, delta=640, unit=64, x0=4096)
 
 # Findings met on the unchanged tree (exact inputs in the `what` text).  known_findings.json is
-# maintained by the lead; until an id is listed there the entry below is used, and said so.
+# maintained by the lead; the list below is documentation of what was proposed, nothing reads it.
 PROPOSED = [
     {"id": "F-FIELD-1", "property": "C08", "status": "known", "match": {"clause": "C08.MomentumAtEndPoint"},
      "what": "FieldPropagator commit branch, disjunct `update_length <= minimum_substep`: the momentum of the END of "
@@ -183,10 +183,8 @@ def _abort_trace(path, what):
 def run(ctx):
     vlib.build(["vfield"])
     q = ctx.quick
-    for p in PROPOSED:
-        if not any(f["id"] == p["id"] for f in ctx.findings):
-            ctx.findings.append(p)
-            ctx.assumptions.append("finding %s is proposed by this check and not yet listed in known_findings.json" % p["id"])
+    # known findings come from the committed known_findings.json only (PROPOSED above documents the
+    # entries this check's builder asked for; it is never consulted at run time)
 
     # ---------------------------------------------------------------- A/B design check + behaviours
     import time
